@@ -219,7 +219,22 @@ func parseUnits(body string) (units []UnitInfo, seq int32, hasTS bool) {
 func (w *World) ExecOps(supis []string, ops []Op, snapFrom int, withGor bool) *HistRun {
 	h := &HistRun{}
 	fileWrites = nil
-	for i, op := range ops {
+	w.execInto(supis, h, ops, snapFrom, withGor, true)
+	return h
+}
+
+// execOn appends operations to an existing history without snapshots and without waiting for quiescence
+// (used by concurrent driver threads, which must not serialise themselves).
+func (w *World) execOn(supis []string, h *HistRun, ops []Op) []Step {
+	n := len(h.Steps)
+	w.execInto(supis, h, ops, 1<<30, false, false)
+	return h.Steps[n:]
+}
+
+func (w *World) execInto(supis []string, h *HistRun, ops []Op, snapFrom int, withGor bool, quiesce bool) {
+	base := len(h.Steps)
+	for i0, op := range ops {
+		i := base + i0
 		curStep = i
 		st := Step{Op: op}
 		supi := op.Supi
@@ -238,7 +253,9 @@ func (w *World) ExecOps(supis []string, ops []Op, snapFrom int, withGor bool) *H
 			}
 		}
 		st.Ref = ref
-		vs.Quiesce()
+		if quiesce {
+			vs.Quiesce()
+		}
 		if i >= snapFrom {
 			s := w.Snapshot(withGor)
 			st.Pre = &s
@@ -303,7 +320,9 @@ func (w *World) ExecOps(supis []string, ops []Op, snapFrom int, withGor bool) *H
 				}
 			}
 		}
-		vs.Quiesce()
+		if quiesce {
+			vs.Quiesce()
+		}
 		st.Notes = notesSince(n0)
 		if i >= snapFrom {
 			s := w.Snapshot(withGor)
@@ -311,7 +330,6 @@ func (w *World) ExecOps(supis []string, ops []Op, snapFrom int, withGor bool) *H
 		}
 		h.Steps = append(h.Steps, st)
 	}
-	return h
 }
 
 // ---------------------------------------------------------------------------------------
